@@ -348,6 +348,74 @@ pub fn drive(args: &HashMap<String, String>) {
             rep.violation(json!({"property": "C19", "kind": "compile-entry-point", "scenario": ev}));
         }
     }
+    // F. faults of the environment short of a crash: a file size limit (RLIMIT_FSIZE with SIGXFSZ ignored, the same
+    // errno path as a full disk or an exhausted quota) stops the staged write part way.  The new contents are larger
+    // than the limit, so no complete new output can be written by any route; whatever the caller does about the error,
+    // the output path must still hold its complete previous contents (AtomicWrite!WriteFails, OnError = "report")
+    for mode in ["compile", "gentle"] {
+        for kind in ["different", "same", "absent"] {
+            let name = format!("fault_{mode}_{kind}");
+            let scn = setup(&base, &name, if kind == "same" { "different" } else { kind }, 1000);
+            let input = scn.dir.join("in.clsp");
+            let big = "a".repeat(3000);
+            std::fs::write(&input, format!("(mod (X) (c \"{big}\" X))")).unwrap();
+            let child_args: Vec<String> = if mode == "compile" {
+                vec!["c19-child".into(), "--mode".into(), "compile".into(), "--target".into(), scn.target.to_str().unwrap().into(), "--input".into(), input.to_str().unwrap().into()]
+            } else {
+                vec!["c19-child".into(), "--mode".into(), "gentle".into(), "--target".into(), scn.target.to_str().unwrap().into(), "--content".into(),
+                    if kind == "same" { "old".into() } else { "w1".into() }, "--size".into(), "6000".into()]
+            };
+            let mut expect_old = if kind == "absent" { None } else { Some(content("old", 1000)) };
+            if kind == "same" {
+                // the previous contents are what this very write produces: written once without a limit
+                let _ = std::fs::remove_file(&scn.target);
+                if mode == "compile" {
+                    let st = Command::new(child_exe()).args(&child_args).stdout(Stdio::null()).stderr(Stdio::null()).status().expect("spawn");
+                    if !st.success() {
+                        rep.violation(json!({"property": "C19", "kind": "fault-scenario-setup", "scenario": name}));
+                        continue;
+                    }
+                } else {
+                    std::fs::write(&scn.target, content("old", 6000)).unwrap();
+                }
+                expect_old = std::fs::read_to_string(&scn.target).ok();
+            }
+            if mode == "compile" && kind != "absent" {
+                let old_time = std::time::SystemTime::now() - std::time::Duration::from_secs(3600);
+                let _ = std::fs::File::options().write(true).open(&scn.target).and_then(|fh| fh.set_modified(old_time));
+            }
+            let quoted: Vec<String> = std::iter::once(child_exe().to_str().unwrap().to_string()).chain(child_args.iter().cloned()).map(|a| format!("'{}'", a.replace('\'', "'\\''"))).collect();
+            let script = format!("trap '' XFSZ; ulimit -f 1; exec {}", quoted.join(" "));
+            let st = Command::new("sh").arg("-c").arg(&script).stdout(Stdio::null()).stderr(Stdio::null()).status().expect("spawn sh");
+            let got = std::fs::read_to_string(&scn.target).ok();
+            let fin = match (&got, &expect_old) {
+                (None, _) => "absent".to_string(),
+                (Some(g), Some(o)) if g == o => "old".to_string(),
+                (Some(g), _) if g.is_empty() => "empty".to_string(),
+                // the limit is 512 bytes and every complete new output is far larger
+                (Some(g), _) if g.len() > 4000 => "new:complete".to_string(),
+                _ => "partial".to_string(),
+            };
+            let result = match st.code() {
+                Some(0) => "ok",
+                Some(3) => "err",
+                _ => "killed",
+            };
+            rep.evaluations += 1;
+            rep.nontrivial(&name);
+            // the limit bites whenever more than 512 bytes have to be staged
+            let ev = json!({"ev": "Fault", "mode": mode, "kind": kind, "fault": "file-size-limit", "fault_hit": true, "result": result, "final": fin,
+                "len": got.as_ref().map(|g| g.len()).unwrap_or(0), "tmp_left": tmp_left(&scn.dir)});
+            writeln!(f, "{ev}").unwrap();
+            rep.traces += 1;
+            let intact_ok = (fin == "old" && kind != "absent") || (fin == "absent" && kind == "absent");
+            let ok = intact_ok && (kind != "same" || result == "ok") && (kind == "same" || result == "err");
+            if !ok {
+                rep.violation(json!({"property": "C19", "kind": "environment-fault", "scenario": ev}));
+            }
+            let _ = std::fs::remove_dir_all(&scn.dir);
+        }
+    }
     let _ = std::fs::remove_dir_all(&base);
     rep.write(outp);
 }
